@@ -177,7 +177,7 @@ type c05Witness struct {
 func init() {
 	core.Register(&core.Check{
 		ID:   "C05",
-		Rule: "cells: every (in, style, explode) with style/explode given or omitted (defaults) that Parameter.Validate accepts and for which the specification defines the serialisation of the value kind; shapes: integer/int32/number/boolean/string with and without constraints, enum, allOf/oneOf/anyOf wrappers, arrays of each primitive with size/unique constraints, flat objects (several property orders), nested objects/arrays for deepObject; values: boundary and ordinary values from alphabets that exclude the cell's delimiters (empty strings and empty arrays excluded: their serialisation is undefined); presence: present / absent x required / optional; plus wrong-lexical-class texts serialised by the same rules. Each case runs the real router, the decode hook and ValidateParameter. Distinct = (cell, shape, value, presence, required); non-trivial = value present (decode inverse asserted) or absent (missing/optional asserted).",
+		Rule: "cells: every (in, style, explode) with style/explode given or omitted (defaults) that Parameter.Validate accepts and for which the specification defines the serialisation of the value kind; shapes: integer/int32/number/boolean/string with and without constraints, enum, allOf/oneOf/anyOf wrappers, arrays of each primitive with size/unique constraints, flat objects (several property orders), nested objects/arrays for deepObject; values: boundary and ordinary values from alphabets that exclude the cell's delimiters (empty strings and empty arrays excluded: their serialisation is undefined); presence: present / absent x required / optional; plus wrong-lexical-class texts serialised by the same rules. Each case runs the real router, the decode hook and ValidateParameter, then ValidateRequest on an operation that inherits the same parameter from its path item while declaring a same-named parameter in another location: the two verdicts must agree. Distinct = (cell, shape, value, presence, required); non-trivial = value present (decode inverse asserted) or absent (missing/optional asserted).",
 		Assumptions: []string{
 			"gen/style.go is a correct reading of the OAS 3.0.3 style table",
 			"lenient spellings the decoder accepts (hex/octal integers, 't'/'1' booleans) are not judged; only texts of the wrong lexical class are required to be rejected",
@@ -257,6 +257,17 @@ func c05Group(c *core.Ctx, cell c05cell, sh c05shape, required bool, qname strin
 		return
 	}
 	kparam := d.Paths.Find(path).Get.Parameters[0].Value
+	// the same parameter declared on the path item, next to an operation parameter of the same name in another location:
+	// request validation of that operation must agree with ValidateParameter (nothing else is declared)
+	decoyIn := "header"
+	if cell.In == "header" {
+		decoyIn = "query"
+	}
+	var router2 routers.Router
+	doc2 := baseDoc(gen.S{path: gen.S{"parameters": gen.Arr(param), "get": gen.S{"parameters": gen.Arr(gen.S{"name": name, "in": decoyIn, "schema": gen.S{"type": "string"}}), "responses": okResponses()}}})
+	if d2, err := loadDoc(doc2); err == nil {
+		router2, _ = newGorilla(d2)
+	}
 	style, explode := cell.eff()
 	orders := sh.Order
 	if orders == nil {
@@ -363,6 +374,22 @@ func c05Group(c *core.Ctx, cell c05cell, sh c05shape, required bool, qname strin
 			c.Violate(core.PanicFeatures(pi), mkW(pi.Value), pi.Stack)
 			return
 		}
+		if router2 != nil {
+			if in3, err := reqInput(router2, build2(req), &openapi3filter.Options{}); err == nil {
+				var rerr error
+				c.Eval()
+				if pi := core.Guard(func() { rerr = openapi3filter.ValidateRequest(bgCtx, in3) }); pi != nil {
+					c.Violate(core.PanicFeatures(pi), mkW(pi.Value), pi.Stack)
+					return
+				}
+				c.Cover("classes", "request-level agreement checked")
+				if (rerr == nil) != (verr == nil) {
+					c.Violate(feat("request_level_disagrees_with_parameter_level"), mkW(fmt.Sprint(rerr)), fmt.Sprintf("%s\ndeclared on the path item (operation declares %q in %s too): ValidateRequest=%v, ValidateParameter=%v", desc, name, decoyIn, rerr, verr))
+				}
+			} else {
+				c.Cover("classes", "request-level: not routed")
+			}
+		}
 		key := fmt.Sprintf("%s|%s|%s|%s|%v|%v|%v|%v", cell, name, sh.Name, gen.Canon(v), present, required, bad, neighbours)
 		if neighbours {
 			c.Cover("classes", "with-unrelated-parameters")
@@ -424,7 +451,7 @@ func c05Group(c *core.Ctx, cell c05cell, sh c05shape, required bool, qname strin
 	neighbours = false
 	// PRNG-drawn values of the shape
 	r := c.Rng("values/" + cell.String() + "/" + sh.Name + "/" + qname)
-	for i, n := 0, c.Pick(6, 400); i < n; i++ {
+	for i, n := 0, c.Pick(6, 4000); i < n; i++ {
 		if v := c05RandomValue(r, sh); v != nil {
 			run(v, nil, true, false)
 		}
